@@ -694,7 +694,6 @@ func wrapArg(v ssa.Value) (ssa.Value, bool) {
 
 var _ = types.Typ
 
-
 // expandBoundPredicates: a branch on `check(S)` where check is a function-valued parameter bound by the
 // caller to a same-package predicate (or closure) is a branch on what that predicate tests: its atoms,
 // with the predicate's own parameter standing for the subject, are added to the path literals.
